@@ -78,6 +78,80 @@ fn fd_fetch_mnt_id() {
 }
 
 // ---------------------------------------------------------------------------
+// `FdExt::metadata` contract stub.  The real body
+//     syscalls::fstatat(fd, "").map_err(|err| RawOsError{..})? ; Ok(Metadata(stat))
+// materialises a `Result<Stat, ErrorImpl>` (144-byte Ok payload in a union
+// with the ~200-byte niche-encoded ErrorImpl); CBMC needs ~250 s for EACH
+// assignment to such a value (measured with --show-goto-symex-steps).  The
+// body is therefore decided once, on its own (`fd_metadata_body`), and every
+// other harness uses this stub: Ok(attributes K fixed for that descriptor) or
+// Err(OsError-class error carrying the errno K chose).
+
+pub(crate) fn k_metadata<Fd: AsFd>(this: &Fd) -> Result<Metadata, Error> {
+    let raw = this.as_fd().as_raw_fd();
+    let k = kmut();
+    k.touch(raw);
+    let mut c = NO_CALL;
+    c.kind = C_FSTATAT;
+    c.dirfd = raw;
+    if k.fails() {
+        c.errno = any_errno();
+        k.push(c);
+        Err(ErrorImpl::OsError {
+            operation: "get fd metadata".into(),
+            source: IOError::from_raw_os_error(c.errno),
+        }
+        .into())
+    } else {
+        c.ok = true;
+        k.push(c);
+        let mut st = zero_stat();
+        match k.ent(raw) {
+            Some(e) => {
+                st.st_mode = e.st_mode;
+                st.st_uid = e.st_uid;
+                st.st_ino = e.st_ino;
+            }
+            None => {
+                st.st_mode = kani::any();
+                st.st_uid = kani::any();
+                st.st_ino = kani::any();
+            }
+        }
+        Ok(Metadata(st))
+    }
+}
+
+/// the real `metadata()` body against K's fstatat: same answer as the stub
+#[kani::proof]
+#[kani::unwind(6)]
+#[kani::stub(crate::syscalls::fstatat, k_fstatat)]
+#[kani::stub(alloc::fmt::format, k_format)]
+fn fd_metadata_body() {
+    install_close_model();
+    reset(3);
+    let fd = given_fd(true);
+    let res = borrow_fd(fd).metadata();
+    let k = kref();
+    assert!(k.ncalls == 1 && k.log[0].kind == C_FSTATAT && k.log[0].dirfd == fd && k.log[0].name_len == 0);
+    let e = k.ent(fd).unwrap();
+    match &res {
+        Ok(m) => {
+            assert!(k.log[0].ok);
+            assert!(m.mode() == e.st_mode && m.uid() == e.st_uid && m.ino() == e.st_ino);
+            assert!(m.is_symlink() == (e.st_mode & libc::S_IFMT == libc::S_IFLNK));
+        }
+        Err(err) => {
+            assert!(!k.log[0].ok);
+            assert!(cheap_kind(err) == ErrorKind::OsError(Some(k.log[0].errno)));
+        }
+    }
+    kani::cover!(res.is_ok(), "stat ok");
+    kani::cover!(res.is_err(), "stat failed");
+    std::mem::forget(res);
+}
+
+// ---------------------------------------------------------------------------
 // reopen
 
 
@@ -170,7 +244,7 @@ macro_rules! reopen_h {
     ($name:ident, $sym:expr, $creat:expr) => {
         #[kani::proof]
         #[kani::unwind(6)]
-        #[kani::stub(crate::syscalls::fstatat, k_fstatat)]
+        #[kani::stub(<std::os::unix::io::BorrowedFd<'static> as crate::utils::FdExt>::metadata, k_metadata)]
         #[kani::stub(crate::procfs::ProcfsHandle::open_follow, crate::procfs::ProcfsHandle::k_open_follow)]
         #[kani::stub(alloc::fmt::format, k_format)]
         fn $name() {
